@@ -222,3 +222,75 @@ def auth56 (H : Hashes) (r : Nat) (o u oe ue : Bytes) (pw : Bytes) : Option Byte
     else none
 
 end StdSec
+
+/-! ## Vocabulary of the C06 statements: which objects are exempt, what a conforming writer stores,
+    what a written dictionary looks like -/
+
+namespace Crypt
+open StdSec
+
+/-- the objects `Decoder::decrypt` leaves alone -/
+def Exempt (d : Decoder) (id gen : Nat) : Prop :=
+  d.encryptRef = some (id, gen) ∨ (d.encryptMetadata = false ∧ d.metadataRef = some (id, gen))
+
+instance (d : Decoder) (id gen : Nat) : Decidable (Exempt d id gen) := by unfold Exempt; infer_instance
+
+/-- the comparison of Algorithm 6 for a candidate key -/
+def UCheck (H : Hashes) (r : Nat) (u id k : Bytes) : Prop :=
+  if r = 2 then makeU H 2 k id [] = u else makeU H r k id [] = u.take 16
+
+instance (H : Hashes) (r : Nat) (u id k : Bytes) : Decidable (UCheck H r u id k) := by unfold UCheck; infer_instance
+
+/-- what a conforming writer puts into `/O` and `/U` (Algorithms 3, 4, 5) for revisions 2–4 -/
+structure WrittenRc4 (H : Hashes) (d : CryptDict) (id0 : Bytes) (n : Nat) (userPw ownerPw tail : Bytes) : Prop where
+  o : d.o = makeO H d.r n ownerPw userPw
+  u : d.u = makeU H d.r (alg2Key H d.r n d.o d.p id0 d.encryptMetadata userPw) id0 tail
+
+/-- the `/U`, `/UE` a conforming writer produces (Algorithm 8) for the prepared user password `pU` -/
+structure WrittenU56 (H : Hashes) (d : CryptDict) (pU vs ks fileKey : Bytes) : Prop where
+  u : d.u = makeU56 H d.r pU vs ks
+  ue : d.ue = some (makeUE H d.r pU ks fileKey)
+  vs : vs.length = 8
+  ks : ks.length = 8
+  key : fileKey.length = 32
+
+/-- the `/O`, `/OE` of Algorithm 9 for the prepared owner password `pO` -/
+structure WrittenO56 (H : Hashes) (d : CryptDict) (pO vs ks fileKey : Bytes) : Prop where
+  o : d.o = makeO56 H d.r pO vs ks d.u
+  oe : d.oe = some (makeOE H d.r pO ks d.u fileKey)
+  vs : vs.length = 8
+  ks : ks.length = 8
+  key : fileKey.length = 32
+
+/-- the decoder holds the file key the writer used, for the writer's cipher -/
+def Matches (d : Decoder) (c : Cipher) (fileKey : Bytes) : Prop :=
+  match c with
+  | .rc4 => d.method = .v2 ∧ d.keyOf = .ok fileKey
+  | .aes128 => d.method = .aesv2 ∧ d.keyOf = .ok fileKey ∧ fileKey.length = 16
+  | .aes256 => d.method = .aesv3 ∧ d.key = fileKey ∧ fileKey.length = 32
+
+/-- how a conforming writer stores the string / stream data `plain` of object `(id, gen)`: unchanged when
+    the object is exempt (the encryption dictionary; the metadata object when `EncryptMetadata` is false),
+    otherwise Algorithm 1 / 1.A with an arbitrary 16 byte IV -/
+def StoredAs (H : Hashes) (c : Cipher) (fileKey : Bytes) (exempt : Prop) (id gen : Nat) (plain stored : Bytes) : Prop :=
+  (exempt ∧ stored = plain) ∨ (¬ exempt ∧ ∃ iv : Bytes, iv.length = 16 ∧ stored = encryptObject H c fileKey id gen iv plain)
+
+mutual
+/-- `stored` is `plain` with every string replaced by a stored form (`R plain stored`), same shape -/
+def EncVal (R : Bytes → Bytes → Prop) : Val → Val → Prop
+  | .str p, .str s => R p s
+  | .atom t, .atom t' => t = t'
+  | .arr ps, .arr ss => EncVals R ps ss
+  | .dict ps, .dict ss => EncKvs R ps ss
+  | _, _ => False
+def EncVals (R : Bytes → Bytes → Prop) : List Val → List Val → Prop
+  | [], [] => True
+  | p :: ps, s :: ss => EncVal R p s ∧ EncVals R ps ss
+  | _, _ => False
+def EncKvs (R : Bytes → Bytes → Prop) : List (Bytes × Val) → List (Bytes × Val) → Prop
+  | [], [] => True
+  | (k, p) :: ps, (k', s) :: ss => k = k' ∧ EncVal R p s ∧ EncKvs R ps ss
+  | _, _ => False
+end
+
+end Crypt
